@@ -101,6 +101,11 @@ def write_replay(prop, sub, failure, status="found"):
     p = os.path.join(d, f"{prop}-{sub}-{h}.json")
     with open(p, "w") as f:
         json.dump(body, f, indent=1, default=str)
+    try:  # keep a private copy (replay/found is scratch space that anyone may clear)
+        os.makedirs(os.path.join(WORK, "found"), exist_ok=True)
+        shutil.copy(p, os.path.join(WORK, "found", os.path.basename(p)))
+    except OSError:
+        pass
     return os.path.relpath(p, HERE)
 
 
